@@ -220,10 +220,16 @@ where
 
         let mut ch = 0;
         let (remaining_input, subframes) = bits(many_m_n(channels, channels, |i| {
-            let ret = subframe::<(BitInput<'a>, nom::error::ErrorKind)>(
-                block_size,
-                bits_per_sample + header.channel_assignment().bits_per_sample_offset(ch),
-            )(i);
+            let subframe_bits =
+                bits_per_sample + header.channel_assignment().bits_per_sample_offset(ch);
+            if subframe_bits > MAX_BITS_PER_SAMPLE + 1 {
+                return Err(nom::Err::Error(error_position!(
+                    i,
+                    nom::error::ErrorKind::Verify
+                )));
+            }
+            let ret =
+                subframe::<(BitInput<'a>, nom::error::ErrorKind)>(block_size, subframe_bits)(i);
             ch += 1;
             ret
         }))(remaining_input)
@@ -363,7 +369,6 @@ fn sample_rate_code<'a, E>(
 where
     E: ParseError<&'a [u8]>,
 {
-    debug_assert!(tag <= 0b1110);
     move |input| {
         let remaining_input = input;
         let (remaining_input, data) = if tag == 0b1100 {
@@ -451,7 +456,13 @@ where
     let (remaining_input, typetag) = bit_take(7usize)(remaining_input)?;
     let (remaining_input, wasted_flag): (_, u8) = bit_take(1usize)(remaining_input)?;
 
-    assert!(wasted_flag == 0); // not supported
+    if wasted_flag != 0 {
+        // not supported
+        return Err(nom::Err::Error(error_position!(
+            remaining_input,
+            nom::error::ErrorKind::Verify
+        )));
+    }
 
     Ok((remaining_input, (typetag, wasted_flag != 0)))
 }
@@ -556,7 +567,12 @@ where
         }
         let order = (typetag as usize) - 0x20 + 1;
         let (remaining_input, warm_up) = raw_samples(bits_per_sample, order)(remaining_input)?;
-        let warm_up = heapless::Vec::try_from(warm_up.as_slice()).expect("Unexpected error");
+        let warm_up = heapless::Vec::try_from(warm_up.as_slice()).map_err(|()| {
+            nom::Err::Error(error_position!(
+                remaining_input,
+                nom::error::ErrorKind::Verify
+            ))
+        })?;
 
         let (remaining_input, parameters) = quantized_parameters(order)(remaining_input)?;
         let (remaining_input, residual) = residual(block_size, order)(remaining_input)?;
@@ -592,8 +608,13 @@ where
         let (remaining_input, coefs) = raw_samples(precision, order)(remaining_input)?;
 
         let coefs: Vec<i16> = coefs.into_iter().map(|x| x as i16).collect();
-        let ret = component::QuantizedParameters::new(&coefs, order, shift, precision)
-            .expect("Unexpected error");
+        let ret =
+            component::QuantizedParameters::new(&coefs, order, shift, precision).map_err(|_e| {
+                nom::Err::Error(error_position!(
+                    remaining_input,
+                    nom::error::ErrorKind::Verify
+                ))
+            })?;
         Ok((remaining_input, ret))
     }
 }
@@ -701,10 +722,11 @@ where
 }
 
 fn u_to_i(x: u32, bits: usize) -> i32 {
-    let x: u64 = x.into(); // widen
-    let msb: u64 = 1u64 << (bits - 1);
-    let offset: i32 = if x >= msb { (1u32 << bits) as i32 } else { 0 };
-    i32::try_from(x).unwrap() - offset
+    debug_assert!(1 <= bits && bits <= 32);
+    let x: i64 = x.into(); // widen
+    let msb: i64 = 1i64 << (bits - 1);
+    let offset: i64 = if x >= msb { 1i64 << bits } else { 0 };
+    (x - offset) as i32
 }
 
 /// Utility parser for reading a sequence of samples with an arbitrary bit-width.
